@@ -20,13 +20,13 @@ LEVEL_NOTE = ("Trusted: in-process emulation of process death (cross-checked aga
               "starlette/instrumentation. A handler still 'running' 200 virtual seconds after the restart with nothing scheduled counts as 'stays running forever'.")
 DESIGN_REF = "§5 C13"
 RULE = "case = (deterministic program, crash after persisted tick k), all k enumerated; distinct = hash(program seed, k); non-trivial = crash lands before the terminal tick"
-REQUIRED_REACH = ["crash_point", "restart", "resumed_completed", "terminal_prefix_finalised", "crash_after_step_result", "crash_after_add_event"]
+REQUIRED_REACH = ["crash_point", "restart", "resumed_completed", "terminal_prefix_finalised", "crash_after_step_result", "crash_after_add_event", "terminal_prefix_fail", "terminal_prefix_cancel", "terminal_prefix_timeout", "resumed_to_same_failure"]
 ASSUMPTIONS = ["workflows deterministic and idempotent under re-execution by construction (gen_det)"]
 
 
 def plan(tier, seed):
     n = 16 if tier == "quick" else 32
-    per = 3 if tier == "quick" else 25
+    per = 5 if tier == "quick" else 30
     return [{"seed": seed * 1_000_000 + i * 10_000, "n": per} for i in range(n)]
 
 
@@ -34,12 +34,25 @@ def gen_case(seed):
     from vf import gen
 
     rnd = random.Random(seed)
-    spec = gen.gen_det(rnd)
+    mode = rnd.choice(["complete", "complete", "complete", "fail", "cancel", "timeout"])
+    spec = gen.gen_det(rnd, handler=(False if mode == "fail" else None))
     spec["sched_seed"] = seed
-    return {"seed": seed, "family": "det", "spec": spec}
+    cancel_at = None
+    if mode == "fail":
+        st = next(s for s in spec["steps"] if s["name"] == "a0")
+        n = rnd.randint(1, 2)
+        st["retry"] = {"wait": {"k": "fixed", "w": 0}, "stop": {"k": "attempt", "n": n}}
+        for a in st["acts"]:
+            if a["k"] == "fail":
+                a["n"] = -1
+    elif mode == "cancel":
+        cancel_at = rnd.choice([0.25, 0.75, 1.25, 2.25])
+    elif mode == "timeout":
+        spec["timeout"] = rnd.choice([0.75, 1.25, 2.25])
+    return {"seed": seed, "family": "det", "mode": mode, "spec": spec, "cancel_at": cancel_at}
 
 
-def run_crash(spec, db, crash_at):
+def run_crash(spec, db, crash_at, cancel_at=None):
     from vf import server_run as sr
 
     case = sr.Case(spec)
@@ -49,6 +62,12 @@ def run_crash(spec, db, crash_at):
         store = sr.fault_store("sqlite", db, crash_at=crash_at, log=[])
         proc = await sr.Proc(spec, store).start()
         await proc.start_run("h1", case.tr.rec)
+        if cancel_at is not None:
+            await asyncio.sleep(cancel_at)
+            try:
+                await proc.server._service.cancel_handler("h1")
+            except BaseException as e:  # noqa: BLE001  (the emulated crash may hit inside the cancel)
+                out["cancel_exc"] = repr(e)
         await asyncio.sleep(300)
         if crash_at is None:
             out["h"] = sr.handler_view(await proc.handler("h1"))
@@ -135,7 +154,24 @@ def run_one(case, acc, only_k=None):
 
     d = boot.scratch_dir()
     try:
-        ref, _ = run_crash(case["spec"], os.path.join(d, "ref.db"), None)
+        mode = case.get("mode", "complete")
+        ref, _ = run_crash(case["spec"], os.path.join(d, "ref.db"), None, case.get("cancel_at"))
+        want = {"complete": "completed", "fail": "failed", "cancel": "cancelled", "timeout": "failed"}[mode]
+        if mode != "complete":
+            if not ref.get("h") or ref["h"]["status"] not in (want, "completed"):
+                acc.inconclusive.append(f"reference server run ({mode}) ended unexpectedly seed={case['seed']}: {ref.get('h')}")
+                return
+            if ref["h"]["status"] != want:
+                return  # the run finished before the cancel / timeout landed: nothing to check in this mode
+            n = len(ref["ticks"])
+            acc.hit("reference_" + mode)
+            ks = [n] + ([k for k in range(1, n)] if mode == "fail" else [])
+            for k in ks:
+                if only_k is not None and k != only_k:
+                    continue
+                out, cs = run_crash(case["spec"], os.path.join(d, f"c{k}.db"), k, case.get("cancel_at"))
+                check_point_nonresult(case, k, n, ref, out, acc)
+            return
         if not ref.get("h") or ref["h"]["status"] != "completed":
             acc.inconclusive.append(f"reference server run did not complete seed={case['seed']}: {ref.get('h')} {ref['p1']}")
             return
@@ -148,6 +184,42 @@ def run_one(case, acc, only_k=None):
             check_point(case, k, ref, out, acc)
     finally:
         shutil.rmtree(d, ignore_errors=True)
+
+
+def check_point_nonresult(case, k, n, ref, out, acc):
+    """runs that end as failed / cancelled / timed out: the full persisted log must be finalised with the matching status,
+    and (deterministic failures only) every proper prefix must resume to the same failure"""
+    wit = {"case": {**case, "k": k}}
+    acc.case()
+    acc.hit("crash_point")
+    ticks = out["ticks_at_crash"]
+    if len(ticks) != k:
+        acc.inconclusive.append(f"crash emulation: {len(ticks)} ticks persisted at crash point {k}")
+        return
+    acc.hit("restart")
+    hres, r = out.get("h"), ref["h"]
+    if hres is None:
+        acc.violation({"mech": "handler_record_missing_after_restart"}, f"crash after tick {k}: handler row not found", wit)
+        return
+    if k == n:
+        acc.hit("terminal_prefix_finalised")
+        acc.hit("terminal_prefix_" + case["mode"])
+        if hres["status"] != r["status"] or (r["status"] == "failed" and bool(hres["error"]) != bool(r["error"])):
+            acc.violation({"mech": "terminated_prefix_not_finalised", "mode": case["mode"], "status": hres["status"]},
+                          f"the whole tick log of a run that ended as {r['status']} was persisted, but after the restart the handler is {hres}", wit)
+        if out["bodies_after"] > 0:
+            acc.violation({"mech": "finished_run_re_executed_after_restart", "mode": case["mode"]},
+                          f"run already ended as {r['status']} in the persisted log, yet {out['bodies_after']} step bodies ran after the restart", wit)
+        return
+    missing = unpersisted_outputs(ticks)
+    if hres["status"] == "running":
+        acc.violation({"mech": "resumed_handler_never_finishes", "unpersisted_step_consequence_at_crash": bool(missing), "crash_after": ticks[-1]["type"]},
+                      f"crash after persisted tick {k} of a failing run: handler still running 300 virtual s after the restart; unpersisted consequences {missing}", wit)
+    elif hres["status"] != r["status"] or hres["error"] != r["error"]:
+        acc.violation({"mech": "resumed_handler_wrong_status", "status": hres["status"], "mode": case["mode"]},
+                      f"crash after tick {k}: handler ended as {hres}, uninterrupted run ended as {r}", wit)
+    else:
+        acc.hit("resumed_to_same_failure")
 
 
 def check_point(case, k, ref, out, acc):
